@@ -29,10 +29,13 @@ def sqrt_ratio_contract(interp, args, kwargs):
             tt = z3.ToInt(t.t) if t.ty != BOOL else None
         else:
             tt = t.t
-        p.vc("get_sqrt_ratio_at_tick/requires-tick-in-range", z3.And(tt >= MIN_TICK, tt <= MAX_TICK), kind="callee-pre")
+        inr = z3.And(tt >= MIN_TICK, tt <= MAX_TICK)
+        if interp.spec_depth == 0:
+            p.vc("get_sqrt_ratio_at_tick/requires-tick-in-range", inr, kind="callee-pre")
+        # inside specification text (invariants) the function is the total mathematical one; its range is known only in range
         f = p.uf("sqrt_ratio", z3.IntSort(), z3.IntSort())
         rr = f(tt)
-        p.assume(z3.And(rr >= MIN_SQRT, rr <= MAX_SQRT), "contract get_sqrt_ratio_at_tick: MIN_SQRT <= result <= MAX_SQRT (proved in C06)")
+        p.assume(z3.Implies(inr, z3.And(rr >= MIN_SQRT, rr <= MAX_SQRT)), "contract get_sqrt_ratio_at_tick: MIN_SQRT <= result <= MAX_SQRT (proved in C06)")
         p.assume(z3.And(z3.Implies(tt == MIN_TICK, rr == MIN_SQRT), z3.Implies(tt == MAX_TICK, rr == MAX_SQRT)),
                  "contract get_sqrt_ratio_at_tick: boundary values (proved in C06)")
         res = SV(rr, INT)
